@@ -78,7 +78,11 @@ func runSpec(l *Loaded, spec *CheckSpec, tier, only string, workers int, extra m
 	knownSeen := []string{}
 	reachAll := map[string]int{}
 	twinOK := true
-	var assumptions, outside []string
+	assumptions := []string{
+		"trusted base: the gosym engine (SSA interpreter, term simplifier, scheduler), z3, the intrinsics/summaries for runtime, sync, time, fmt and unsafe casts, and the Go toolchain's SSA construction",
+		"loggers and metrics (zap, file.d/logger, file.d/metric, prometheus) are no-op stubs; logger.Panic*/Fatal* end the path as panic/exit",
+	}
+	outside := []string{}
 	stubsAll := map[string]string{}
 	nViol := 0
 	replayOK := 0
